@@ -78,7 +78,7 @@ type c10Case struct {
 	Header  string `json:"header"`
 	Body    string `json:"body"`
 	Env     c10Env `json:"env"`
-	History string `json:"history"` // first | retry | restart | restart-retry
+	History string `json:"history"` // first | retry | restart | restart-retry | report-then-retry
 }
 
 func c10Meta(e c10Env) *module.MsgMetadata {
@@ -135,6 +135,10 @@ func c10Run(scratch string, c c10Case) (string, string) {
 		}
 	}
 	wantHdr := qhSerializeHeader(hdr)
+	if c.History == "report-then-retry" && len(c.Env.Rcpts) < 2 {
+		c10Outcome = "history needs two recipients"
+		return "", ""
+	}
 	failFirst := c.History == "retry" || c.History == "restart" || c.History == "restart-retry"
 	leak := ""
 	mk := func(phase int) *qhTarget {
@@ -142,6 +146,14 @@ func c10Run(scratch string, c c10Case) (string, string) {
 		t.decide = func(d *qhDeliv, stage, rcpt string) int {
 			if l := c10ScanSpool(dir); l != "" && leak == "" {
 				leak = l
+			}
+			if phase == 0 && c.History == "report-then-retry" && d.Attempt == 1 && stage == "status" {
+				// the first recipient fails for good (a failure report is generated while the
+				// message stays queued), the others fail temporarily
+				if rcpt == c.Env.Rcpts[0] {
+					return qhP
+				}
+				return qhT
 			}
 			if phase == 0 && failFirst && d.Attempt == 1 {
 				// first recipient delivered, the rest (or the only one) fails temporarily
@@ -170,7 +182,11 @@ func c10Run(scratch string, c c10Case) (string, string) {
 				firstDone.Send(struct{}{})
 			}
 		}
-		q, err := qhNewQueue(qhQueueOpts{dir: dir, target: t0, maxTries: 5})
+		qo := qhQueueOpts{dir: dir, target: t0, maxTries: 5}
+		if c.History == "report-then-retry" {
+			qo.bounce = &qhTarget{name: "bounce"}
+		}
+		q, err := qhNewQueue(qo)
 		if err != nil {
 			subErr = err
 			return
@@ -236,7 +252,7 @@ func c10Run(scratch string, c c10Case) (string, string) {
 	}
 	wantAttempts := 1
 	switch c.History {
-	case "retry", "restart":
+	case "retry", "restart", "report-then-retry":
 		wantAttempts = 2
 	case "restart-retry":
 		wantAttempts = 3
@@ -282,7 +298,7 @@ func c10Run(scratch string, c c10Case) (string, string) {
 			return "C10:original-sender", fmt.Sprintf("%s: %q vs %q", where, m.OriginalFrom, c.Env.From)
 		}
 		// what stays pending after this attempt
-		if i == 0 && failFirst {
+		if i == 0 && (failFirst || c.History == "report-then-retry") {
 			if len(c.Env.Rcpts) > 1 {
 				pending = c.Env.Rcpts[1:]
 			}
@@ -342,7 +358,7 @@ func TestVerifC10(t *testing.T) {
 	scratch = filepath.Join(scratch, fmt.Sprintf("c10-%d", r.Shard))
 	os.MkdirAll(scratch, 0o755)
 	defer os.RemoveAll(scratch)
-	r.Rule("every header made of <= H atoms from a 13-atom alphabet (folding with spaces/tabs, trailing spaces, empty/998-octet/very long values; plus whole headers of 0.5 / 1 / 1.5 MiB, repeated fields, 8-bit, UTF-8, mixed-case names) parsed by the endpoint's header parser, crossed with every history in {first attempt, retry, restart, restart+retry}; plus the full product body (6, incl. binary and a >1 MiB file-backed one) x envelope (sender null/IDN/quoted, 1-2 recipients incl. two mailboxes that differ only in letter case, SMTPUTF8, REQUIRETLS, TLS-Required override, original-recipient map) x history; each message goes through the real queue; oracle: bytes of header and body, sender, pending recipients, options, override and map equal on every attempt, spool empty at the end, no spool file ever contains the authentication user name or password. Non-trivial: distinct (message, history) cases with at least one retry or restart")
+	r.Rule("every header made of <= H atoms from a 13-atom alphabet (folding with spaces/tabs, trailing spaces, empty/998-octet/very long values; plus whole headers of 0.5 / 1 / 1.5 MiB, repeated fields, 8-bit, UTF-8, mixed-case names) parsed by the endpoint's header parser, crossed with every history in {first attempt, retry, restart, restart+retry, first recipient fails for good (failure report generated through a bounce target) while the others are retried}; plus the full product body (6, incl. binary and a >1 MiB file-backed one) x envelope (sender null/IDN/quoted, 1-2 recipients incl. two mailboxes that differ only in letter case, SMTPUTF8, REQUIRETLS, TLS-Required override, original-recipient map) x history; each message goes through the real queue; oracle: bytes of header and body, sender, pending recipients, options, override and map equal on every attempt, spool empty at the end, no spool file ever contains the authentication user name or password. Non-trivial: distinct (message, history) cases with at least one retry or restart")
 	if rp := r.Replay(); rp != nil {
 		var c c10Case
 		if json.Unmarshal(rp, &c) != nil {
@@ -363,7 +379,7 @@ func TestVerifC10(t *testing.T) {
 	if vx.Thorough() {
 		H = 3
 	}
-	hists := []string{"first", "retry", "restart", "restart-retry"}
+	hists := []string{"first", "retry", "restart", "restart-retry", "report-then-retry"}
 	envs := []c10Env{}
 	for _, from := range []string{"sender@example.com", "", "\"quo ted\"@example.com", "s@пример.рф"} {
 		// the last pair: two distinct mailboxes whose lookup keys coincide (letter case)
